@@ -108,6 +108,8 @@ def check_cart(c, via, case, g=None, fname='cart'):
     from pico8.game.formatter.p8 import P8Formatter
     from pico8.game import file as pfile
     from pico8 import tool
+    from vlib import prelude
+    prelude.files()
     try:
         if g is None:
             g = cartgen.make_game(c['mem'], version=c['version'], code=c['code'], label=c['label'])
